@@ -203,6 +203,21 @@ def walk(a):
             yield from walk(x)
 
 
+def fold_union_spelling(a):
+    """`X | None` and `Optional[X]` are `==` with equal hashes, and typing interns `C[args]` by `==` of the arguments:
+    which of the two spellings a cached `In[...]` / `List[...]` shows depends on which was built first in the process.
+    This folds both spellings into one (used only to recognise that artefact, never to compare results)."""
+    k = a[0]
+    if k == "pu":
+        return ["app", "Union", sorted((fold_union_spelling(x) for x in a[1]), key=json.dumps)]
+    if k == "app":
+        args = [fold_union_spelling(x) for x in a[2]]
+        return ["app", a[1], sorted(args, key=json.dumps) if a[1] == "Union" else args]
+    if k == "ann":
+        return ["ann", fold_union_spelling(a[1]), a[2]]
+    return a
+
+
 def is_closed(a):
     return all(x[0] not in ("tv", "self") for x in walk(a))
 
@@ -1504,6 +1519,9 @@ def dcw_round(chk, drv, n, corr_fail):
         except Exception:  # noqa: BLE001
             want = json.dumps(mo)
         if got != want:
+            if json.dumps(fold_union_spelling(json.loads(got))) == json.dumps(fold_union_spelling(json.loads(want))):
+                chk.note("dcw-typing-interned-union-spelling")
+                continue
             corr_fail.append(("DCW", case, got, rm))
         # the specification agrees wherever the model says the shape is in scope (C17_subst_partial, sampled)
         # (deep_copy_with proper is only ever called on parametrised annotations; a bare TypeVar is the templates' job)
@@ -1513,7 +1531,8 @@ def dcw_round(chk, drv, n, corr_fail):
                 spec_c = json.dumps(W.canon(W.real(ann_of(parse_sx(sp)))))
             except Exception:  # noqa: BLE001
                 spec_c = None
-            if spec_c is not None and spec_c != got:
+            if spec_c is not None and spec_c != got and \
+                    json.dumps(fold_union_spelling(json.loads(spec_c))) != json.dumps(fold_union_spelling(json.loads(got))):
                 corr_fail.append(("DCW", dict(case, op="dcw-vs-spec"), got, sp))
 
 
